@@ -1,2 +1,48 @@
+(* Proofs for the transaction pipeline monitors (C03, C05 node level, C06, C07, C11), part 4:
+   the monitor is silent on every valid history. *)
 From V.lib Require Import Base.
 From V.model Require Import MemPool TxFlow TxFlowSpec.
+From V.proofs Require Import TxFlow_Base TxFlow_Inv.
+
+Theorem txflow_monitor_silent :
+  forall (delay : Z) (ops : list op),
+    flow_valid delay ops = true -> txflow_monitor delay ops (run delay ops) = None.
+Proof.
+  intros delay ops H. apply flow_valid_valid in H. unfold txflow_monitor, run.
+  apply (monitor_silent_from delay ops H ops); [apply Inv_init|auto].
+Qed.
+
+Lemma txflow_never_objects_any :
+  forall (codes : list Z) (delay : Z) (ops : list op),
+    flow_valid delay ops = true -> never_objects delay codes ops.
+Proof.
+  intros codes delay ops H i c Hm. rewrite (txflow_monitor_silent delay ops H) in Hm. discriminate.
+Qed.
+
+Lemma txflow_never_objects_C03 :
+  forall (delay : Z) (ops : list op),
+    flow_valid delay ops = true -> never_objects delay [111; 112; 113; 114; 115; 131; 143; 153] ops.
+Proof. apply txflow_never_objects_any. Qed.
+
+Lemma txflow_never_objects_C05 :
+  forall (delay : Z) (ops : list op),
+    flow_valid delay ops = true -> never_objects delay [103; 141; 142; 144] ops.
+Proof. apply txflow_never_objects_any. Qed.
+
+Lemma txflow_never_objects_C06 :
+  forall (delay : Z) (ops : list op),
+    flow_valid delay ops = true -> never_objects delay [151; 152; 154] ops.
+Proof. apply txflow_never_objects_any. Qed.
+
+Lemma txflow_never_objects_C07 :
+  forall (delay : Z) (ops : list op),
+    flow_valid delay ops = true ->
+    never_objects delay [101; 102; 103; 121; 122; 123; 124; 125; 126; 161; 162] ops.
+Proof. apply txflow_never_objects_any. Qed.
+
+Lemma txflow_never_objects_C11 :
+  forall (delay : Z) (ops : list op),
+    flow_valid delay ops = true -> never_objects delay [113; 121; 153; 171] ops.
+Proof. apply txflow_never_objects_any. Qed.
+
+Print Assumptions txflow_monitor_silent.
